@@ -9,6 +9,7 @@ import (
 	"context"
 	"fmt"
 	"io"
+	"os"
 	"reflect"
 	"sort"
 	"strings"
@@ -436,7 +437,16 @@ func TestC19(t *testing.T) {
 			}
 		}
 	}
+	// conformance: a few histories through REAL files and the REAL file watcher (watcherx/fsnotify),
+	// scheduler in pass-through mode. Polls until the expected final state shows; a timeout is
+	// recorded as inconclusive, never as a violation (wall-clock time is not an oracle).
+	realOK, realInconclusive := 0, 0
+	if shard == 0 {
+		realOK, realInconclusive = realFileConformance(t, run, l)
+	}
 	run.FinishPart(map[string]any{
+		"real_watcher_histories_confirmed":    realOK,
+		"real_watcher_histories_inconclusive": realInconclusive,
 		"states":                        cov.states,
 		"transitions":                   cov.trans,
 		"traces_validated_against_impl": cov.execs,
@@ -479,4 +489,62 @@ func sigOf(opl bool, hist []version, bad string) string {
 		what = "final-" + what
 	}
 	return kind + ":" + multi + ":" + what
+}
+
+
+// realFileConformance replays histories on a temp directory watched by keto's own NewNamespaceWatcher.
+func realFileConformance(t *testing.T, run *ev.Run, l *logrusx.Logger) (ok, inconclusive int) {
+	alpha := legacyAlphabet(".json")
+	pick := func(ix ...int) []version {
+		var h []version
+		for _, i := range ix {
+			h = append(h, alpha[i])
+		}
+		return h
+	}
+	// indices: 0 f1=V1, 1 f1=V2, 2 f1=BAD, 3 rm f1, 4 f2=W1, 5 f2=BAD
+	hists := [][]version{pick(0), pick(0, 1), pick(0, 2), pick(0, 4), pick(0, 4, 3), pick(4, 5, 0), pick(0, 2, 1)}
+	for _, hist := range hists {
+		dir := t.TempDir()
+		ctx, cancel := context.WithCancel(context.Background())
+		nw, err := config.NewNamespaceWatcher(ctx, l, "file://"+dir)
+		if err != nil {
+			cancel()
+			inconclusive++
+			continue
+		}
+		for _, v := range hist {
+			p := dir + "/" + v.file[len("/d/"):]
+			if v.rm {
+				_ = os.Remove(p)
+			} else {
+				_ = os.WriteFile(p, []byte(v.data), 0o644)
+			}
+			time.Sleep(60 * time.Millisecond) // let the notification be delivered; not an oracle
+		}
+		deadline := time.Now().Add(15 * time.Second)
+		good := false
+		var got []string
+		for time.Now().Before(deadline) {
+			nn, _ := nw.Namespaces(ctx)
+			got = got[:0]
+			for _, n := range nn {
+				got = append(got, n.Name)
+			}
+			sort.Strings(got)
+			if judgeFinal(hist, sample{names: got}, false) == "" {
+				good = true
+				break
+			}
+			time.Sleep(50 * time.Millisecond)
+		}
+		cancel()
+		if good {
+			ok++
+		} else {
+			inconclusive++
+			fmt.Printf("[c19] real-watcher replay of {%s} inconclusive: still %v after 15s\n", histName(hist), got)
+		}
+	}
+	return
 }
